@@ -161,3 +161,22 @@ for D in (1, 2):
               ensures=[('%s() is canonical position %s of the same range' % (which, pos), 'ret->n_ == %s && %s' % (pos, fields_same('ret', 'self', D, ('base_', 'l_'))))] +
                       [('the new iterator is in sync (%d)' % i, c) for i, c in enumerate(SYNC('ret', D, aslist=True))],
               assigns=['*ret'])
+
+# elements().front() / back()  (C02: "elements()[k], elements().front()/back() agree with it"); whole closures: begin()/end(), std::prev, operator*
+for D in (1, 2):
+    zb = ' && '.join('g_f%d == 0' % k for k in range(D))
+    last = 'self->base_ + ' + ' + '.join('MUL(g_n%d - 1, %s)' % (k, lp('self', k, 'stride_', 'l_.')) for k in range(D))
+    extra = []
+    for k in range(D):
+        st = lp('self', k, 'stride_', 'l_.')
+        extra += ['LEMMA_DISTSUB(g_n%d, 1, %s)' % (k, st), 'LEMMA_MUL1(%s)' % st, 'LEMMA_MUL0(%s)' % st]
+    if D == 2: extra += ['LEMMA_DIVADD(g_n0, 0, g_n1)', 'LEMMA_DIVADD(0, 0, g_n1)', 'LEMMA_MUL0(g_n1)', 'LEMMA_DIV0(g_n1)', 'LEMMA_DIVADD(g_n0 - 1, g_n1 - 1, g_n1)', 'LEMMA_DISTSUB(g_n0, 1, g_n1)', 'LEMMA_MUL1(g_n1)',
+                         'LEMMA_REMRANGE(MUL(g_n0, g_n1) - 1, g_n1)', 'LEMMA_DIVMOD(MUL(g_n0, g_n1) - 1, g_n1)']
+    Check('ER%d_front' % D, ['C02', 'C03'], 'elements', params=['self'], fn='w_ER%d_front' % D,
+          wrapper=('double const*', 'ER<%d> const* self' % D, 'return &self->front();'), cxx={'self': ERrec(D)}, ghosts=ghosts_fn(D), mode='uf',
+          requires=[RWF('self', D), zb], lemmas=rlem('self', D) + extra,
+          ensures=[('elements().front() is the element at the first index tuple', 'RET == self->base_')], assigns=[], solvers=('cvc5', 'cadical'))
+    Check('ER%d_back' % D, ['C02', 'C03'], 'elements', params=['self'], fn='w_ER%d_back' % D,
+          wrapper=('double const*', 'ER<%d> const* self' % D, 'return &self->back();'), cxx={'self': ERrec(D)}, ghosts=ghosts_fn(D), mode='uf',
+          requires=[RWF('self', D), zb], lemmas=rlem('self', D) + extra,
+          ensures=[('elements().back() is the element at the last index tuple (n0-1, ..., n_{D-1}-1)', 'RET == %s' % last)], assigns=[], solvers=('cvc5', 'cadical'))
